@@ -14,11 +14,11 @@ import (
 
 // HistCheck describes one property check driven by generated header-repository histories.
 type HistCheck struct {
-	Prop  string
-	Gen   GenCfg
-	Opt   Options
-	Rule  string
-	Post  func(ctx context.Context, run *common.Run, res *GenResult, idx int) // extra per-history oracle
+	Prop string
+	Gen  GenCfg
+	Opt  Options
+	Rule string
+	Post func(ctx context.Context, run *common.Run, res *GenResult, idx int) // extra per-history oracle
 }
 
 type sigHit struct {
